@@ -160,7 +160,8 @@ def report(pid, tier, seed, modname, obs, results, bres, meta, t0):
                     known_hits.append((b['name'], hit))
                 continue
             os.makedirs(rdir, exist_ok=True)
-            rp = os.path.join(rdir, (b['name'] + '__' + fl.get('clause', 'bounded')).replace('/', '_').replace(':', '_') + '.json')
+            import re as _re
+            rp = os.path.join(rdir, _re.sub(r'[^A-Za-z0-9_.=-]+', '_', b['name'] + '__' + fl.get('clause', 'bounded') + '__' + str(fl.get('signature', '')))[:150] + '.json')
             if not os.path.exists(rp) or True:
                 json.dump(dict(property=pid, module=modname, bounded=b['name'], clause=fl.get('clause'), failure=fl,
                                replay_cmd=f"./check --replay {os.path.relpath(rp, ROOT)}"), open(rp, 'w'), indent=1, default=str)
